@@ -1,38 +1,112 @@
 /-
   Helper lemmas for the text model (C11). Statements used by `Props/C11.lean`.
+
+  The proofs are assembled from `Lemmas/TextWrap.lean` (the wrap loop of `textwrap`) and
+  `Lemmas/TextType.lean` (`splitOn`/`joinWith`, the typewriter without a width).
 -/
 import Simpleline.Model.Grid
 import Simpleline.Lemmas.TextWrap
+import Simpleline.Lemmas.TextType
 
 namespace Simpleline
 
 theorem wrapStep_decreases (cc : CharClass) (w : Nat) (hw : 1 ≤ w) (haveLines : Bool)
     (chunks : List (List Char)) (hne : chunks ≠ []) (hch : ∀ c ∈ chunks, c ≠ []) :
     wrapMeasure (wrapStep cc w haveLines chunks).2 < wrapMeasure chunks ∧
-    (∀ c ∈ (wrapStep cc w haveLines chunks).2, c ≠ []) := by
-  sorry
+    (∀ c ∈ (wrapStep cc w haveLines chunks).2, c ≠ []) :=
+  wrapStep_decreases' cc w hw haveLines chunks hne hch
 
-theorem render_width (cc : CharClass) (st : WSt) (t : List Char) (w : Nat) (hw : 1 ≤ w) (s : WSt)
-    (h : renderTextSt cc st t w = .ok s) : ∀ l ∈ s.buf, l.length ≤ w := by
-  sorry
+/-! ### what `TextWidget.render` leaves in the buffer -/
 
-theorem render_conserve (cc : CharClass) (hs : cc.Sane) (st : WSt) (t : List Char) (w : Nat) (hw : 1 ≤ w)
-    (s : WSt) (h : renderTextSt cc st t w = .ok s) :
-    (s.buf.flatten.filter fun c => !cc.isSpace c) = t.filter fun c => !cc.isSpace c := by
-  sorry
+theorem wrapWords_nil (cc : CharClass) (w : Nat) : wrapWords cc [] w = [] := by
+  have h1 : splitChunks cc (munge []) = [] := by
+    simp only [munge, expandTabsAux, List.map_nil, splitChunks]
+    rw [splitAux]
+  have h2 : pyWrap cc [] w = [] := by
+    rw [pyWrap, h1, wrapLoop]
+    simp
+  simp [wrapWords, splitOn, joinWith, h2]
+
+/-- the rendered buffer is the wrapped text split at the line breaks (no line at all for an empty
+wrapped text) -/
+theorem render_buf (cc : CharClass) (st : WSt) (t : List Char) (w : Nat) (hw : 1 ≤ w) (s : WSt)
+    (h : renderTextSt cc st t w = .ok s) :
+    s.buf = if wrapWords cc t w = [] then [] else splitOn '\n' (wrapWords cc t w) := by
+  simp only [renderTextSt, WSt.writeWrapped, WSt.clear] at h
+  split at h
+  · next ht =>
+    subst ht
+    simp only [Except.ok.injEq] at h
+    subst h
+    rw [if_pos (wrapWords_nil cc w)]
+  · have hw' : ¬ ((w : Int) ≤ 0) := by omega
+    rw [if_neg hw'] at h
+    simp only [Except.ok.injEq, Int.toNat_natCast] at h
+    subst h
+    simp only [WSt.writeAt]
+    split
+    · rfl
+    · next hne => exact typewrite_empty_buf _ hne
+
+/-- the lines of the wrapped text -/
+theorem splitOn_wrapWords (cc : CharClass) (t : List Char) (w : Nat) :
+    splitOn '\n' (wrapWords cc t w) =
+      (splitOn '\n' t).flatMap fun l => if pyWrap cc l w = [] then [[]] else pyWrap cc l w := by
+  have hm : (splitOn '\n' t).map (fun l => joinWith '\n' (pyWrap cc l w)) =
+      ((splitOn '\n' t).map (fun l => pyWrap cc l w)).map (joinWith '\n') := by
+    rw [List.map_map]; rfl
+  rw [wrapWords, hm, splitOn_joinWith_join '\n' _ (by simpa using splitOn_ne_nil '\n' t),
+    List.flatMap_map]
+  · rfl
+  · intro ls hls
+    simp only [List.mem_map] at hls
+    obtain ⟨l, _, rfl⟩ := hls
+    exact pyWrap_no_nl cc l w
 
 theorem render_breaks (cc : CharClass) (st : WSt) (t : List Char) (w : Nat) (hw : 1 ≤ w) (s : WSt)
     (h : renderTextSt cc st t w = .ok s) :
     s.buf = if wrapWords cc t w = [] then []
             else (splitOn '\n' t).flatMap fun l => if pyWrap cc l w = [] then [[]] else pyWrap cc l w := by
-  sorry
+  rw [render_buf cc st t w hw s h, splitOn_wrapWords]
+
+theorem render_width (cc : CharClass) (st : WSt) (t : List Char) (w : Nat) (hw : 1 ≤ w) (s : WSt)
+    (h : renderTextSt cc st t w = .ok s) : ∀ l ∈ s.buf, l.length ≤ w := by
+  rw [render_breaks cc st t w hw s h]
+  split
+  · simp
+  · intro l hl
+    simp only [List.mem_flatMap] at hl
+    obtain ⟨src, _, hl⟩ := hl
+    split at hl
+    · simp only [List.mem_singleton] at hl
+      subst hl
+      exact Nat.zero_le _
+    · exact pyWrap_length cc src w l hl
+
+theorem nl_space (cc : CharClass) (hs : cc.Sane) : cc.isSpace '\n' = true :=
+  hs.ws6_space _ (by decide)
+
+theorem render_conserve (cc : CharClass) (hs : cc.Sane) (st : WSt) (t : List Char) (w : Nat) (hw : 1 ≤ w)
+    (s : WSt) (h : renderTextSt cc st t w = .ok s) :
+    (s.buf.flatten.filter fun c => !cc.isSpace c) = t.filter fun c => !cc.isSpace c := by
+  have h1 : nsp cc s.buf.flatten = nsp cc (wrapWords cc t w) := by
+    rw [render_buf cc st t w hw s h]
+    split
+    · next h0 => rw [h0]; rfl
+    · exact nsp_splitOn cc '\n' (nl_space cc hs) _
+  have h2 : nsp cc (wrapWords cc t w) = nsp cc t := by
+    rw [wrapWords, nsp_joinWith cc '\n' (nl_space cc hs), nsp_flatten_map, nsp_splitOn cc '\n' (nl_space cc hs)]
+    intro l _
+    rw [nsp_joinWith cc '\n' (nl_space cc hs), pyWrap_conserve cc hs l w hw]
+  exact h1.trans h2
 
 theorem pyWrap_nonempty (cc : CharClass) (l : List Char) (w : Nat) (hw : 1 ≤ w) :
-    ∀ x ∈ pyWrap cc l w, x ≠ [] := by
-  sorry
+    ∀ x ∈ pyWrap cc l w, x ≠ [] :=
+  pyWrap_ne cc l w hw
 
 theorem pyWrap_blank (cc : CharClass) (hs : cc.Sane) (l : List Char) (w : Nat) (hw : 1 ≤ w)
     (hb : ∀ c ∈ l, isWs6 c = true) : pyWrap cc l w = [] := by
-  sorry
+  have _ := hw  -- holds for every width
+  exact pyWrap_blank' cc hs l w hb
 
 end Simpleline
